@@ -2662,13 +2662,15 @@ def s_cif_history(draw):
             ["copy", "reducers", "cal", "beamline", "authors", "powder", "set_name", "block_add",
              "block_copy", "set_comment", "save", "new_block", "copy", "block_add",
              "block_set_name", "new_cif"]))
-        op = {"op": kind, "i": draw(st.integers(0, 5))}
+        # -1 = the object created last (seeded/C09-s9: a combinator that returns the builder itself
+        # when there is nothing to add is only seen if the *result* is modified afterwards)
+        op = {"op": kind, "i": draw(st.sampled_from([-1, -1, 0, 1, 2, 3, 4, 5]))}
         if kind == "new_cif":
             op.update(name=draw(st.sampled_from(_NAMES)), comment=draw(st.sampled_from(["", "c"])))
         elif kind == "authors":
-            op["people"] = draw(_s_people(roles=False))
+            op["people"] = draw(st.one_of(st.just([]), _s_people(roles=False), _s_people(roles=False)))
         elif kind == "reducers":
-            op["reducers"] = draw(st.lists(st.sampled_from(["r1 1.0", "r2", "r3 v2"]), min_size=1,
+            op["reducers"] = draw(st.lists(st.sampled_from(["r1 1.0", "r2", "r3 v2"]), min_size=0,
                                            max_size=2))
         elif kind == "beamline":
             op["beamline"] = {"name": draw(st.sampled_from(["DREAM", "POWGEN"])),
@@ -2725,6 +2727,11 @@ def check_cif_history(case):
                 c2, arg = c.with_powder_calibration(build_calibration(op["cal"])), op["cal"]
             else:
                 c2, arg = c.copy(), None
+            if c2 is c:
+                # the builder has setters (name, comment): handing out the same object means that
+                # whatever the caller does to the result happens to the original
+                raise Violation("builder-aliased", f"step {step}: CIF.{'copy' if kind == 'copy' else 'with_' + kind}"
+                                f"({arg!r}) returned the builder it was called on, not a new one")
             cifs.append([c2, [*lineage, (kind, arg)]])
             derived = True
         elif kind == "set_name" and pick is not None:
@@ -2740,7 +2747,10 @@ def check_cif_history(case):
             pickb[0].add(dict(op["pairs"]))
             pickb[1].append(("add", op["pairs"]))
         elif kind == "block_copy" and pickb is not None:
-            blocks.append([pickb[0].copy(), [*pickb[1], ("copy", None)]])
+            b2 = pickb[0].copy()
+            if b2 is pickb[0]:
+                raise Violation("builder-aliased", f"step {step}: Block.copy() returned the block itself")
+            blocks.append([b2, [*pickb[1], ("copy", None)]])
             derived = True
         elif kind == "block_set_name" and pickb is not None:
             pickb[0].name = op["name"]
@@ -3018,7 +3028,7 @@ FACETS = [
           doc="model constructors, with_prefix, +, param_names, param_bounds under mutation of "
               "the returned sets/dicts, vs the constructor arguments"),
     Facet("hist_cif", check_cif_history, strategy=lambda tier: s_cif_history(),
-          quick=(1, 120), thorough=(16, 500), min_nontrivial=0.3,
+          quick=(2, 150), thorough=(16, 500), min_nontrivial=0.3,
           doc="CIF / Block builders: derived builders and setters must not change their "
               "ancestors; each builder saves what its own lineage says"),
     Facet("cif_save_repeat", check_cif_repeat, strategy=lambda tier: s_cif_repeat(),
